@@ -1,0 +1,38 @@
+//go:build verif
+
+// Contracts of the shared two-octet float codec (DPT 9.xxx) and of the 14-character string
+// encoders (DPT 16.xxx) for the kvc verifier
+// (see /verif/DESIGN.md). Comment-only.
+
+package dpt
+
+//@ func roundF16(f float32) (r int)
+//@   props C07
+
+//@ func packF16(f float32) (r []byte)
+//@   props C07
+//@   ensures [format] len(r) == 3 && r[0] == 0 && fresh(r)
+//@   ensures [exponent] f == 0.0 ==> r[1] == 0 && r[2] == 0
+//@   loop 0 invariant exp >= 0 && exp <= 15
+//@   loop 0 invariant f == 0.0 ==> scaled == 0.0 && signedMantissa == 0 && exp == 0
+//@   loop 0 decreases 15 - exp
+
+//@ func unpackF16(data []byte, f *float32) (err error)
+//@   props C07
+//@   requires f != nil
+//@   ensures [accepts] len(data) == 3 <==> err == nil
+//@   assigns *f
+
+//@ func (d DPT_16000) Pack() (r []byte)
+//@   props C07
+//@   ensures [format] len(r) == 15 && r[0] == 0 && fresh(r)
+//@   ensures [ascii] forall k in 1..15 :: r[k] <= 127
+//@   loop 0 invariant i >= 0 && buf[0] == 0
+//@   loop 0 invariant forall k in 1..15 :: buf[k] <= 127
+//@   loop 0 decreases 14 - i
+
+//@ func (d DPT_16001) Pack() (r []byte)
+//@   props C07
+//@   ensures [format] len(r) == 15 && r[0] == 0 && fresh(r)
+//@   loop 0 invariant i >= 0 && buf[0] == 0
+//@   loop 0 decreases 14 - i
